@@ -20,7 +20,8 @@ CONSTANTS Certs,     \* certificates that can be on disk, e.g. {"A", "B", "C"}
           Sharing,   \* which TLSConfig objects share the listener's certificate holder:
                      \*   "none" every clone has its own (F21); "lazy" only clones made after the listener was
                      \*   built (a defect class); "all" a TLSConfig and all its clones, whenever made (the repair)
-          SkipSet, SuiteSet   \* values of InsecureSkipVerify / CipherSuites explored
+          SkipSet, SuiteSet,  \* values of InsecureSkipVerify / CipherSuites explored
+          SystemRootsToo      \* FALSE: ClientCAs holds the configured CA only (the code); TRUE: a defect class
 
 VARIABLES cfg,       \* settings the server was started with
           started,   \* Listen has been called
@@ -42,7 +43,7 @@ Start(c) == /\ ~started
             /\ UNCHANGED <<last, live, disk, pending>>
 
 Hello(cl) == /\ listening
-             /\ last' = [seen |-> TRUE, cl |-> cl, out |-> Handshake(cfg, cl), served |-> live]
+             /\ last' = [seen |-> TRUE, cl |-> cl, out |-> HandshakeWith(cfg, cl, SystemRootsToo), served |-> live]
              /\ UNCHANGED <<cfg, started, listening, live, disk, pending>>
 
 RotateOnDisk(c) == /\ listening /\ c # disk
